@@ -54,13 +54,14 @@ func main() {
 		}
 	}
 	// virtual shim packages inside the library's import space
-	for _, sp := range []string{"vdet", "vsync"} {
+	for _, sp := range []string{"vdet", "vsync", "vio"} {
 		src := filepath.Join(shim, sp, sp+".go.txt")
 		if _, err := os.Stat(src); err == nil {
 			overlay[filepath.Join(repo, "verifshim", sp, sp+".go")] = src
 		}
 	}
 	sites := 0
+	ioFiles := 0
 	report := map[string]interface{}{}
 	var rangeSites []string
 	scs := map[*packages.Package]*schedInfo{}
@@ -108,6 +109,10 @@ func main() {
 			if changed {
 				astutil.AddImport(p.Fset, f, modPath+"/verifshim/vdet")
 			}
+			if mode == "io" && rewriteIO(p, f) {
+				changed = true
+				ioFiles++
+			}
 			if sc != nil {
 				if instrumentSched(p, f, sc) {
 					changed = true
@@ -136,6 +141,11 @@ func main() {
 	}
 	sort.Strings(rangeSites)
 	report["map_range_sites"] = rangeSites
+	report["files_with_file_system_calls_rewritten"] = ioFiles
+	report["file_system_call_sites"] = ioSites
+	if mode == "io" && ioFiles == 0 {
+		fail("no file-system call found in the library's packages: the io shim would observe nothing")
+	}
 	b, _ := json.MarshalIndent(map[string]interface{}{"Replace": overlay}, "", " ")
 	os.WriteFile(filepath.Join(out, "overlay.json"), b, 0o644)
 	rb, _ := json.MarshalIndent(report, "", " ")
@@ -185,4 +195,55 @@ func rewriteRange(rs *ast.RangeStmt, site string, n int) {
 	rs.X = &ast.CallExpr{Fun: &ast.SelectorExpr{X: ast.NewIdent("vdet"), Sel: ast.NewIdent("Order")},
 		Args: []ast.Expr{m, &ast.BasicLit{Kind: token.STRING, Value: fmt.Sprintf("%q", site)}}}
 	rs.Body.List = append(pre, rs.Body.List...)
+}
+
+var ioSites []string
+
+// rewriteIO routes os.Stat / os.Lstat / os.ReadFile / os.Open / os.ReadDir (and ioutil.ReadFile)
+// through the vio shim. Any other use of a file-opening function of package os is an error: the
+// shim must see every access.
+func rewriteIO(p *packages.Package, f *ast.File) bool {
+	changed := false
+	supported := map[string]bool{"Stat": true, "Lstat": true, "ReadFile": true, "Open": true, "ReadDir": true}
+	unsupported := map[string]bool{"OpenFile": true, "Create": true, "WriteFile": true, "Readlink": true, "DirFS": true}
+	ast.Inspect(f, func(n ast.Node) bool {
+		sel, ok := n.(*ast.SelectorExpr)
+		if !ok {
+			return true
+		}
+		id, ok := sel.X.(*ast.Ident)
+		if !ok {
+			return true
+		}
+		pn, ok := p.TypesInfo.Uses[id].(*types.PkgName)
+		if !ok {
+			return true
+		}
+		path := pn.Imported().Path()
+		if path != "os" && path != "io/ioutil" {
+			return true
+		}
+		pos := p.Fset.Position(sel.Pos())
+		site := fmt.Sprintf("%s:%d %s.%s", filepath.Base(pos.Filename), pos.Line, path, sel.Sel.Name)
+		switch {
+		case path == "io/ioutil" && sel.Sel.Name == "ReadFile", path == "os" && supported[sel.Sel.Name]:
+			id.Name = "vio"
+			ioSites = append(ioSites, site)
+			changed = true
+		case path == "os" && unsupported[sel.Sel.Name], path == "io/ioutil" && sel.Sel.Name != "ReadFile" && sel.Sel.Name != "Discard" && sel.Sel.Name != "NopCloser" && sel.Sel.Name != "ReadAll":
+			fail("%s: a file-system call the io shim does not route", site)
+		}
+		return true
+	})
+	if changed {
+		astutil.AddNamedImport(p.Fset, f, "vio", modPath+"/verifshim/vio")
+		// the os import may have become unused
+		if !astutil.UsesImport(f, "os") {
+			astutil.DeleteImport(p.Fset, f, "os")
+		}
+		if !astutil.UsesImport(f, "io/ioutil") {
+			astutil.DeleteImport(p.Fset, f, "io/ioutil")
+		}
+	}
+	return changed
 }
